@@ -38,16 +38,16 @@ func zzShape(pkt []byte) {
 // parse, key derivation, header-protection removal, AEAD open, frame
 // extraction); contents arbitrary, length prefixes from zzShape's sets.
 //
-//verif:harness kind=api unwind=80 bound=len∈{0,1,5,9,10,11,28,29,30}(quick)/{0..32,40,48}(thorough),dcil∈{0,8}/{0,1,8,20},scil∈{0}/{0,4},decrypted<=3B
+//verif:harness kind=api unwind=80 bound=len∈{0,1,5,9,10,11,28,29,30}(quick)/{0..20,28..32}(thorough),dcil∈{0,8}/{0,1,8,20},scil∈{0}/{0,4},decrypted<=3B
 func ZZ_C03_QuicReadCryptoPayload() {
 	verifSymAlloc(true)
 	lens := []int{0, 1, 5, 9, 10, 11, 28, 29, 30}
 	if verifThorough() {
 		lens = nil
-		for i := 0; i <= 32; i++ {
+		for i := 0; i <= 20; i++ {
 			lens = append(lens, i)
 		}
-		lens = append(lens, 40, 48)
+		lens = append(lens, 28, 29, 30, 31, 32)
 	}
 	pkt := verifBytes("dgram", lens[verifChoice("n", len(lens))])
 	zzShape(pkt)
